@@ -156,7 +156,7 @@ def sortEnts (entries : List Ent) : List Ent := entries.mergeSort geP
 (mirrors harness/overlay/lib/dispatchcloud/scheduler/zz_verif_c16_test.go) -/
 
 inductive StartMode where
-  | byIdle | alwaysFail | alwaysOK
+  | byIdle | alwaysFail | alwaysOK | failFirst   -- failFirst: the first StartContainer on the type fails, later ones succeed
 deriving Repr, DecidableEq
 
 structure Stub where
@@ -164,6 +164,7 @@ structure Stub where
   canCreate : Nat             -- Create succeeds while fewer than canCreate creates have succeeded
   created : Nat
   idle : Nat → Nat
+  starts : Nat → Nat          -- StartContainer calls so far, per type
   mode : Nat → StartMode
   lingering : Nat → Bool      -- KillContainer(uuid) = true
 
@@ -171,10 +172,12 @@ def stubPool : Pool Stub where
   atQuota := fun p => (decide (p.quota ≤ p.created), p)
   create := fun _ p => if p.created < p.canCreate then (true, { p with created := p.created + 1 }) else (false, p)
   kill := fun _ u p => (p.lingering u, p)
-  start := fun t _ p =>
+  start := fun t _ p0 =>
+    let p := { p0 with starts := fun x => if x = t then p0.starts x + 1 else p0.starts x }
     match p.mode t with
     | .alwaysFail => (false, p)
     | .alwaysOK => (true, p)
+    | .failFirst => (decide (p0.starts t ≠ 0), p)
     | .byIdle => if p.idle t = 0 then (false, p)
                  else (true, { p with idle := fun x => if x = t then p.idle x - 1 else p.idle x })
 
